@@ -73,7 +73,10 @@ def scenario_for(seed, index, tier, _depth=0, _proto=None):
     plugins = []
     if has_plugin:
         n = rng.choice([0, 0, 1, 2, 5])
-        mid = rng.choice([0, 1, 100])
+        # message ids are 32-bit: those with the top bit set travel as
+        # 5-byte VarInts (negative Java ints)
+        mid = rng.choice([0, 1, 100, 100, 2**31 - 1, 2**31, 2**32 - 1001,
+                          2**32 - 1])
         for _ in range(n):
             pos = rng.randint(0, len(steps))
             n_data = rng.choice([0, 3, 300])
@@ -87,7 +90,7 @@ def scenario_for(seed, index, tier, _depth=0, _proto=None):
             steps.insert(pos, ['plugin', mid, 'ch:%d' % mid, data])
             plugins.append(mid)
             # message ids are the server's business: it may reuse one
-            mid += rng.choice([0, 1, 1, 127, 1000])
+            mid = (mid + rng.choice([0, 1, 1, 127, 1000])) % 2**32
     ending = rng.random()
     disc = None
     late = None
